@@ -58,7 +58,9 @@ def _xy_rows(F, thresholds, acc):
     def setup(G):
         x = G.array("xvals", ("x",), kinds=(FIN,), min_size=1)
         # with -acc only finite or missing scores (running sums of +-inf overflow in floating point: outside A1)
-        scores = [[G.array("sc_%d_%d" % (f, k), ("x",), kinds=(FIN, NAN) if acc else ALL_KINDS, min_size=1) for k in range(nint)] for f in range(F)]
+        # (grid of the concrete cross-check: values that single precision cannot hold, so a table kept in float32 is visible)
+        scores = [[G.array("sc_%d_%d" % (f, k), ("x",), kinds=(FIN, NAN) if acc else ALL_KINDS, min_size=1, grid=[0.0, 1.0 / 3, 1.00000496, 2.5, -1.00050001])
+                   for k in range(nint)] for f in range(F)]
         return Bag(x=x, scores=scores, seen=[])
 
     def call(inp):
@@ -115,7 +117,9 @@ def _xy_threshold():
                 for F in (1, 2, 3):
                     for acc in (False, True):
                         ivs = verif.util.get_intervals(bin_type, thresholds)
-                        vals = [[_np.array([10.0 * f + k + 0.5]) if (f + k) % 4 != 3 else _np.array([_np.nan]) for k in range(len(ivs))] for f in range(F)]
+                        # scores that single precision cannot hold (1/3, 1.00000496, 1.00050001): the table must carry them unrounded
+                        vals = [[_np.array([10.0 * f + k + (1.0 / 3, 1.00000496, 1.00050001)[(f + k) % 3]]) if (f + k) % 4 != 3 else _np.array([_np.nan])
+                                 for k in range(len(ivs))] for f in range(F)]
                         seen = []
                         pl = verif.output.Standard(TableMetric(vals, seen))
                         pl.thresholds, pl.bin_type, pl.show_acc = thresholds, bin_type, acc
@@ -129,7 +133,7 @@ def _xy_threshold():
                         want = _np.array([[vals[f][k][0] for f in range(F)] for k in range(len(ivs))])
                         if acc:
                             want = _np.cumsum(_np.nan_to_num(want), axis=0)
-                        ok = (list(x) == [iv.center for iv in ivs] and y.shape == want.shape and
+                        ok = (list(x) == [iv.center for iv in ivs] and y.shape == want.shape and y.dtype == _np.float64 and
                               all((_np.isnan(a) and _np.isnan(b)) or a == b for a, b in zip(y.flatten(), want.flatten())) and
                               [iv for f, iv in seen] == [iv for f in range(F) for iv in ivs] and list(ynames) == ["n%d" % f for f in range(F)])
                         if not ok:
